@@ -81,6 +81,12 @@ func (c11) Gen(dt *drv.T, c *Ctx) any {
 		mode := pick(dt, "modekind", c11Modes...)
 		p.Body = append(p.Body, &Stmt{Op: "if", Cond: &Cond{Draw: 0, Op: "eq", C: int64(k)}, Body: c11Block(mode, i)})
 	}
+	if chance(dt, "precondition", 30) {
+		// one test case of the random search (not the first) ends before it has drawn anything: its precondition does
+		// not hold that time. The only statement that looks at the invocation count; it is off once a failure was found
+		n := drv.IntRange(1, 12).Draw(dt, "preat")
+		p.Body = append([]*Stmt{{Op: "ifinv", Kind: "gen", N: n, Body: []*Stmt{{Op: "skip", Kind: pick(dt, "preskip", skipKinds...)}}}}, p.Body...)
+	}
 	cs.Prog = p
 	cs.Cfg = genCheckCfg(dt, "TestC11", 100)
 	if cs.Cfg.Checks < 2 {
